@@ -549,4 +549,19 @@ theorem cond_main (c : CCtx) (L : Expr → Bool) : ∀ (e : Expr), inClass c e =
   | .list .., hc, _, _, _, _ | .boundParam .., hc, _, _, _, _ => by simp [inClass] at hc
 
 
+
+/-- The last step of `ConditionExpr` (dropping top-level parentheses, turning `true` into "no
+condition") does not change the value of the residual. -/
+theorem strip_preserves (L : Expr → Bool) (res0 : Option Expr) :
+    evalOpt L (dropTrue (stripTopParen res0)) = evalOpt L res0 := by
+  cases res0 with
+  | none => rfl
+  | some e =>
+    cases e <;> try rfl
+    case boolean b => cases b <;> rfl
+    case paren inner =>
+      cases inner <;> try rfl
+      case boolean b => cases b <;> rfl
+
+
 end InfluxQL
